@@ -165,7 +165,10 @@ func ioFaults(r *Run) {
 					}
 				}
 			}
-			plans = append(plans, inj{[]simdisk.Fault{{Index: i, Kind: k, Keep: keep}}, fmt.Sprintf("call %d (%c %s) kind=%s keep=%d", i, a.Op, a.Path, k, keep)})
+			// which error value the failing call hands back (a plain errno,
+			// another errno, the io package's sentinel errors, wrapped or not)
+			style := t.Pick([]int{5, 1, 1, 1}, "error-style")
+			plans = append(plans, inj{[]simdisk.Fault{{Index: i, Kind: k, Keep: keep, ErrStyle: style}}, fmt.Sprintf("call %d (%c %s) kind=%s keep=%d errstyle=%d", i, a.Op, a.Path, k, keep, style)})
 		}
 	}
 	single := len(plans)
